@@ -994,12 +994,16 @@ fn gen_inner(key: &str, rng: &mut SplitMix64) -> Option<Gen> {
             // 4-D query/key/value (batch, heads, seq, head_size) with optional past key/value
             let (b, h, sq, skv, d, dv) = (1 + rng.upto(1), 1 + rng.upto(1), 1 + rng.upto(2), 1 + rng.upto(2), 1 + rng.upto(3), 1 + rng.upto(3));
             let past = rng.upto(2);
-            let mut inputs = vec![it(t(rng, Dt::F32, &[b, h, sq, d])), it(t(rng, Dt::F32, &[b, h, skv, d])), it(t(rng, Dt::F32, &[b, h, skv, dv]))];
+            // V (and past V) are non-negative: softmax(QK^T) * V is then a sum of non-negative terms, so
+            // the f32 summation order of the GEMM (known finding F61) moves the result by a few ulp at
+            // most; with mixed signs the terms can cancel and the same rounding difference becomes an
+            // arbitrarily large ULP distance (0 vs 3e-8), which is not a different phenomenon
+            let mut inputs = vec![it(t(rng, Dt::F32, &[b, h, sq, d])), it(t(rng, Dt::F32, &[b, h, skv, d])), it(LT::rand(rng, Dt::F32, &[b, h, skv, dv], 0, 4))];
             let mut n_out = 1;
             if rng.chance(2, 3) {
                 inputs.push(None); // attn_mask
                 inputs.push(it(t(rng, Dt::F32, &[b, h, past, d])));
-                inputs.push(it(t(rng, Dt::F32, &[b, h, past, dv])));
+                inputs.push(it(LT::rand(rng, Dt::F32, &[b, h, past, dv], 0, 4)));
                 n_out = 3;
             }
             let attrs = if rng.chance(1, 2) { vec![ai("is_causal", 1)] } else { none };
@@ -1024,12 +1028,13 @@ fn gen_inner(key: &str, rng: &mut SplitMix64) -> Option<Gen> {
         }
         "com.microsoft/MultiHeadAttention" => {
             let (b, nh, h, hv, sq, skv, past) = (1 + rng.upto(1), 1 + rng.upto(1), 1 + rng.upto(2), 1 + rng.upto(2), 1 + rng.upto(2), 1 + rng.upto(2), rng.upto(2));
-            let mut inputs = vec![it(t(rng, Dt::F32, &[b, sq, nh * h])), it(t(rng, Dt::F32, &[b, skv, nh * h])), it(t(rng, Dt::F32, &[b, skv, nh * hv]))];
+            // non-negative V / past V: see "Attention"
+            let mut inputs = vec![it(t(rng, Dt::F32, &[b, sq, nh * h])), it(t(rng, Dt::F32, &[b, skv, nh * h])), it(LT::rand(rng, Dt::F32, &[b, skv, nh * hv], 0, 4))];
             let mut n_out = 1;
             if rng.chance(3, 4) {
                 inputs.extend([None, None, None]);
                 inputs.push(it(t(rng, Dt::F32, &[b, nh, past, h])));
-                inputs.push(it(t(rng, Dt::F32, &[b, nh, past, hv])));
+                inputs.push(it(LT::rand(rng, Dt::F32, &[b, nh, past, hv], 0, 4)));
                 n_out = 3;
             }
             (vec![ai("num_heads", nh as i64)], inputs, n_out)
@@ -1040,12 +1045,13 @@ fn gen_inner(key: &str, rng: &mut SplitMix64) -> Option<Gen> {
                 b = 1; // a prompt on top of a past context is only supported for batch size 1
             }
             let nh = kvh * rep;
-            let mut inputs = vec![it(t(rng, Dt::F32, &[b, s, nh * h])), it(t(rng, Dt::F32, &[b, s, kvh * h])), it(t(rng, Dt::F32, &[b, s, kvh * h]))];
+            // non-negative V / past V: see "Attention"
+            let mut inputs = vec![it(t(rng, Dt::F32, &[b, s, nh * h])), it(t(rng, Dt::F32, &[b, s, kvh * h])), it(LT::rand(rng, Dt::F32, &[b, s, kvh * h], 0, 4))];
             let with_past = rng.chance(3, 4);
             let p = if with_past { past } else { 0 };
             if with_past {
                 inputs.push(it(t(rng, Dt::F32, &[b, kvh, p, h])));
-                inputs.push(it(t(rng, Dt::F32, &[b, kvh, p, h])));
+                inputs.push(it(LT::rand(rng, Dt::F32, &[b, kvh, p, h], 0, 4)));
             } else {
                 inputs.extend([None, None]);
             }
